@@ -460,3 +460,29 @@ func DisjunctGuards(b *ssa.BasicBlock) []string {
 	sort.Strings(out)
 	return out
 }
+
+// EnclosingLoops returns the headers of the natural loops containing i, innermost first.
+func EnclosingLoops(i ssa.Instruction) []*ssa.BasicBlock {
+	var out []*ssa.BasicBlock
+	b := i.Block()
+	for d := b; d != nil; d = d.Idom() {
+		var reach map[*ssa.BasicBlock]bool
+		for _, p := range d.Preds {
+			if p != d && !d.Dominates(p) {
+				continue
+			}
+			in := p == b || d == b
+			if !in {
+				if reach == nil {
+					reach = blockReachAvoiding(b, d)
+				}
+				in = reach[p]
+			}
+			if in {
+				out = append(out, d)
+				break
+			}
+		}
+	}
+	return out
+}
